@@ -84,9 +84,9 @@ pub open spec fn rel_pos(op: TextSelectionOperator, a: TextSelection, b: TextSel
             None => true,
         }),
         TextSelectionOperator::Precedes { allow_whitespace, .. } =>
-            if !allow_whitespace { a.end == b.begin } else { a.end <= b.begin && (a.end == b.begin || gap(res, a.end, b.begin)) },
+            if !allow_whitespace { a.end == b.begin } else { a.end <= b.begin && (a.end == b.begin || (b.begin - a.end <= WHITESPACE_LIMIT && gap(res, a.end, b.begin))) },
         TextSelectionOperator::Succeeds { allow_whitespace, .. } =>
-            if !allow_whitespace { b.end == a.begin } else { b.end <= a.begin && (b.end == a.begin || gap(res, b.end, a.begin)) },
+            if !allow_whitespace { b.end == a.begin } else { b.end <= a.begin && (b.end == a.begin || (a.begin - b.end <= WHITESPACE_LIMIT && gap(res, b.end, a.begin))) },
         TextSelectionOperator::SameBegin { .. } => a.begin == b.begin,
         TextSelectionOperator::SameEnd { .. } => a.end == b.end,
         TextSelectionOperator::SameRange { .. } => a.begin == b.begin && a.end == b.end,
